@@ -243,6 +243,9 @@ func Normalize(dir, goarch string, tags []string) (map[string][]byte, []string) 
 			changed = n.sroaRound()
 		}
 		if !changed {
+			changed = n.copyPropRound()
+		}
+		if !changed {
 			changed = n.structAssignRound()
 		}
 		if !changed {
